@@ -485,6 +485,10 @@ func (c *Ctx) build(t *Term) interface{} {
 			mp.SetMapIndex(reflect.ValueOf(vals[i]), reflect.ValueOf(vals[i+1]))
 		}
 		return mp.Interface()
+	case "sstr":
+		return redact.SafeString(c.Subst(t.B))
+	case "complex":
+		return complex(float64(t.ID)+0.5, float64(t.ID)+1.5)
 	case "rvalue":
 		return reflect.ValueOf(c.Value(t.Xs[0]))
 	case "invalidrv":
@@ -597,6 +601,8 @@ func (c *Ctx) RenderToken(e RtEntry) string {
 			switch v.(type) {
 			case int, uint:
 				verb = 'd'
+			case redact.SafeString:
+				verb = 's'
 			case float64:
 				verb = 'g'
 			case string:
@@ -606,6 +612,25 @@ func (c *Ctx) RenderToken(e RtEntry) string {
 			}
 		}
 		return fmt.Sprintf(directive(e, verb, false), v)
+	case "cre", "cim":
+		// fmtComplex: the parts go through fmtFloat with the directive's verb (v -> %g) and plain flags;
+		// the imaginary part always carries the plus flag
+		z := c.Value(t).(complex128)
+		part := real(z)
+		raw := e
+		raw.M &^= 32 | 64
+		if e.Rk == "cim" {
+			part = imag(z)
+			raw.M |= 4
+		}
+		v := verb
+		if v == 'v' {
+			v = 'g'
+		}
+		if v == 'F' {
+			v = 'f'
+		}
+		return fmt.Sprintf(directive(raw, v, false), part)
 	case "ret":
 		if t.K == "safe" {
 			return fmt.Sprintf(directive(e, verb, false), fmt.Sprintf("%v", c.Value(t.Xs[0])))
